@@ -1178,10 +1178,11 @@ def parse_template(text):
         if mm:
             ins = [mm.group(1), _unesc(mm.group(2)), int(mm.group(3) or 1), mm.group(4)]
             cur.inserts.append(ins); last = ("insert", ins); i += 1; continue
-        mm = re.match(r'^(replace|sigreplace|implreplace)\s+"((?:[^"\\]|\\.)*)"\s*=>\s*"((?:[^"\\]|\\.)*)"\s*(?:x(\d+))?\s*$', body)
+        mm = re.match(r'^(replace|sigreplace|implreplace)\s+"((?:[^"\\]|\\.)*)"\s*(?:#(\d+)\s*)?=>\s*"((?:[^"\\]|\\.)*)"\s*(?:x(\d+))?\s*$', body)
         if mm:
-            cur.replaces.append((mm.group(1), _unesc(mm.group(2)), _unesc(mm.group(3)),
-                                 int(mm.group(4)) if mm.group(4) else None))
+            # `#k`: only the k-th occurrence is rewritten (stored as a negative `expect`)
+            cur.replaces.append((mm.group(1), _unesc(mm.group(2)), _unesc(mm.group(4)),
+                                 (-int(mm.group(3))) if mm.group(3) else (int(mm.group(5)) if mm.group(5) else None)))
             last = None; i += 1; continue
         mm = re.match(r"^fallback\s*:\s?(.*)$", body)
         if mm:
@@ -2020,6 +2021,11 @@ def _rw_replace_any(toks, old, new, rep, expect):
         return toks
     out = list(toks)
     last_start = None
+    if expect is not None and expect < 0:
+        if len(hits) < -expect:
+            rep.append(("LOST", f"replace: occurrence #{-expect} not found (nothing rewritten): {old!r}"))
+            return toks
+        hits = [hits[-expect - 1]]
     for (a0, b0) in reversed(hits):
         if last_start is not None and b0 >= last_start:
             continue
